@@ -225,12 +225,14 @@ func verifLemmaNucleicTable(n *nucleic, b Letter) (t []Letter) {
 
 //@ func (Qphred).Encode
 //@   property C18 C01
+//@   pure
 //@   ensures [sanger] (e == 0 || e == 4 || e == 5) && qp <= 93 ==> q == qp + 33
 //@   ensures [ill13]  e == 2 && qp <= 62 ==> q == qp + 64
 //@   ensures [ill15]  e == 3 && 2 <= qp && qp <= 62 ==> q == qp + 64
 
 //@ func (Encoding).DecodeToQphred
 //@   property C18 C01
+//@   pure
 //@   requires -1 <= e && e <= 5
 //@   ensures [sanger] (e == 0 || e == 4 || e == 5) && q >= 33 ==> result == q - 33
 //@   ensures [ill]    (e == 2 || e == 3) && q >= 64 ==> result == q - 64
